@@ -90,6 +90,16 @@ CLAIMS = {
         note="ONE schedule (sender and reader strictly alternate, threads stubbed): delivery under "
              "real thread schedules/latencies is not claimed; job text concrete; M110 frame never corrupted",
         ref="§4 C15"),
+    "C08": dict(
+        text="Structure of every emitted line for 24 call shapes x formatter configurations: z3 decides "
+             "over all numeric arguments (reals, NaN, inf, ints) that output is whole lines with exactly "
+             "the configured terminator, at most one trailing comment, address words only, every number "
+             "either 0 (only when |value| <= half a unit) or produced by the one sanctioned numpy call "
+             "with precision == decimal places on exactly the requested value; non-finite -> ValueError "
+             "and nothing written. numpy scalar types as enumerated concrete values.",
+        note="NOT decided: numpy C formatting (half-unit rounding, no exponent) - stubbed contract; "
+             "IEEE rounding outside the claim",
+        ref="§4 C08"),
     "C07": dict(
         text="Inductive step of I7: after any of 96 call shapes from an arbitrary consistent state "
              "(symbolic feed, power, temperatures, E parameter, tool number) every state property "
